@@ -270,6 +270,40 @@ spec:
     match: {context: SIDECAR_OUTBOUND}
     patch: {operation: MERGE, value: {per_connection_buffer_limit_bytes: 12345}}
 `)
+	addCfg("reqauth", `
+apiVersion: security.istio.io/v1
+kind: RequestAuthentication
+metadata: {name: ra, namespace: ns1}
+spec:
+  jwtRules:
+  - issuer: "issuer-1"
+    jwks: '{"keys":[{"kty":"RSA","e":"AQAB","kid":"k1","n":"xAE7eB6qugXyCAG3yhh7pkDkT65pHymX-P7KfIupjf59vsdo91bSP9C8H07pSAGQO1MV_xFj9VswgsCg4R6otmg5PV2He95lZdHtOcU5DXIg_pbhLdKXbi66GlVeK6ABZOUW3WYtnNHD-91gVuoeJT_DwtGGcp4ignkgXfkiEm4sw-4sfb4qdt5oLbyVpmW6x9cfa7vs2WTfURiCrBoUqgBo_-4WTiULmmHSGZHOjzwa8WtrtOQGsAFjIbno85jp6MnGGGZPYZbDAa_b3y5u-YpW7ypZrvD8BgtKVjgtQgZhLAGezMt0ua3DRrWnKqTZ0BJ_EyxOGuHJrLsn00fnMQ"}]}'
+`, `
+apiVersion: security.istio.io/v1
+kind: RequestAuthentication
+metadata: {name: ra, namespace: ns1}
+spec:
+  jwtRules:
+  - issuer: "issuer-2"
+    fromHeaders: [{name: x-jwt}]
+    jwks: '{"keys":[{"kty":"RSA","e":"AQAB","kid":"k1","n":"xAE7eB6qugXyCAG3yhh7pkDkT65pHymX-P7KfIupjf59vsdo91bSP9C8H07pSAGQO1MV_xFj9VswgsCg4R6otmg5PV2He95lZdHtOcU5DXIg_pbhLdKXbi66GlVeK6ABZOUW3WYtnNHD-91gVuoeJT_DwtGGcp4ignkgXfkiEm4sw-4sfb4qdt5oLbyVpmW6x9cfa7vs2WTfURiCrBoUqgBo_-4WTiULmmHSGZHOjzwa8WtrtOQGsAFjIbno85jp6MnGGGZPYZbDAa_b3y5u-YpW7ypZrvD8BgtKVjgtQgZhLAGezMt0ua3DRrWnKqTZ0BJ_EyxOGuHJrLsn00fnMQ"}]}'
+`)
+	addCfg("telemetry", `
+apiVersion: telemetry.istio.io/v1
+kind: Telemetry
+metadata: {name: tel, namespace: ns1}
+spec:
+  accessLogging:
+  - providers: [{name: envoy}]
+`, `
+apiVersion: telemetry.istio.io/v1
+kind: Telemetry
+metadata: {name: tel, namespace: ns1}
+spec:
+  accessLogging:
+  - providers: [{name: envoy}]
+    disabled: true
+`)
 	addCfg("se-w", `
 apiVersion: networking.istio.io/v1
 kind: ServiceEntry
@@ -424,10 +458,10 @@ func (s ustate) after(o op) ustate {
 var bases = map[string]func() ustate{
 	"empty": emptyState,
 	"rich": func() ustate {
-		return stateWith("se-a", "se-a2", "se-b", "vs-a", "dr-a", "gateway", "vs-gw", "pa-ns1", "authz", "envoyfilter", "se-w", "we-w", "k8s-svc", "k8s-pod", "k8s-pod2", "k8s-slice")
+		return stateWith("se-a", "se-a2", "se-b", "vs-a", "dr-a", "gateway", "vs-gw", "pa-ns1", "authz", "reqauth", "telemetry", "envoyfilter", "se-w", "we-w", "k8s-svc", "k8s-pod", "k8s-pod2", "k8s-slice")
 	},
 	"scoped": func() ustate {
-		return stateWith("se-a", "se-a2", "se-b", "vs-a", "dr-a", "sidecar-ns1", "gateway", "vs-gw", "pa-ns1", "authz", "envoyfilter", "se-w", "we-w", "k8s-svc", "k8s-pod", "k8s-pod2", "k8s-slice")
+		return stateWith("se-a", "se-a2", "se-b", "vs-a", "dr-a", "sidecar-ns1", "gateway", "vs-gw", "pa-ns1", "authz", "reqauth", "telemetry", "envoyfilter", "se-w", "we-w", "k8s-svc", "k8s-pod", "k8s-pod2", "k8s-slice")
 	},
 }
 
